@@ -461,6 +461,9 @@ def _call_range(rng):
 def _pool_map(fn, items, nproc):
     """Map over items in forked workers; inputs are inherited through fork (no pickling)."""
     global _REPLAYER, _ITEMS
+    lim = tlc.dev_limits()
+    if lim:
+        nproc = min(nproc, int(lim.get("workers", nproc)))
     _REPLAYER = fn
     if len(items) < 256 or nproc <= 1:
         return [_call_replayer(i) for i in items]
